@@ -587,6 +587,7 @@ func (e *c01issEnv) hook(op *doubles.Op) error {
 }
 
 var c01ErrHang = errors.New("no arrival within the bound")
+var c01HangSeen bool
 
 func (e *c01issEnv) wait(n int) error { return e.waitT(n, 90*time.Second) }
 
@@ -908,12 +909,19 @@ func (e *c01issEnv) stepThread(rt *c01issRT) error {
 		expected++
 	}
 	hung := false
-	if bound, ok := map[string]time.Duration{"empty": 8 * time.Second, "stale": 8 * time.Second, "fresh": 25 * time.Second, "empty-fresh": 25 * time.Second}[e.cs.CrashLock]; ok && kind == "Lock" && expected == 1 && f == c01fNone {
+	// expected take-over times: at once (stale), 2 s (empty), about 11 s (fresh, empty-fresh). The bounds are
+	// generous (a loaded machine, a wall clock that is stepped); once one request of this process has hung the
+	// remaining cases use short ones.
+	bounds := map[string]time.Duration{"empty": 30 * time.Second, "stale": 30 * time.Second, "fresh": 60 * time.Second, "empty-fresh": 60 * time.Second}
+	if c01HangSeen {
+		bounds = map[string]time.Duration{"empty": 8 * time.Second, "stale": 8 * time.Second, "fresh": 25 * time.Second, "empty-fresh": 25 * time.Second}
+	}
+	if bound, ok := bounds[e.cs.CrashLock]; ok && kind == "Lock" && expected == 1 && f == c01fNone {
 		// the lock file of a dead holder is in the way: the Locker has to take it over within its
 		// staleness rule; if it does not, the request hangs -- cancel it and record that
 		err := e.waitT(1, bound)
 		if err == c01ErrHang {
-			hung = true
+			hung, c01HangSeen = true, true
 			rt.cancel()
 			err = e.wait(1)
 		}
